@@ -19,7 +19,7 @@ from pwlib.engine import Case
 from pwlib.proto import Line, parse_num
 
 ID = "C17"
-TARGETS = ["PW.Props.C17"]
+TARGETS = ["PW.Props.C17", "PW.Props.C17Pct"]
 RULE = ("box groups (origin, size, query points with atol in {None, 0, >0}) from a lattice stream (dyadic values, zero-"
         "thickness and negative sizes, query points exactly on faces / edges / at distance exactly atol) and a float stream "
         "(origin and each size component drawn independently from 1e-6..1e6, query points inside, outside and near each "
